@@ -279,7 +279,12 @@ func (x *Exec) callInterface(st *State, call *ast.CallExpr, f *ast.SelectorExpr,
 		switch m.Name() {
 		case "Error", "String", "Done", "Err", "Deadline", "Value", "Unwrap":
 			x.oblige(st, "nil", "", Neq(v, ifaceNil), call)
-			return x.unknownResults(st, sig, m.Name())
+			r := x.unknownResults(st, sig, m.Name())
+			if m.Name() == "Err" && typeStr(it) == "context.Context" && len(r) == 1 {
+				// Err is non-nil exactly when the context is cancelled (its Done channel is closed)
+				st.assume(Eq(Neq(r[0], ifaceNil), x.app("ctx.cancelled", SBool, v)))
+			}
+			return r
 		}
 		x.abstracted("call through open interface " + typeStr(it) + "." + m.Name())
 		x.oblige(st, "nil", "", Neq(v, ifaceNil), call)
